@@ -23,7 +23,7 @@ import c02_gen
 from common import sexp, parse_sexp
 
 MODEL_FILES = ['MaltModel/Func/Target.lean', 'MaltModel/Func/Functionalise.lean', 'MaltModel/Props/C01Func.lean',
-               'MaltModel/Proofs/FuncBasic.lean', 'MaltModel/Proofs/FuncSim.lean', 'MaltModel/Proofs/FuncCheck.lean',
+               'MaltModel/Proofs/FuncBasic.lean', 'MaltModel/Proofs/FuncRestrict.lean', 'MaltModel/Proofs/FuncSim.lean', 'MaltModel/Proofs/FuncCheck.lean',
                'MaltModel/Proofs/FuncFBasic.lean', 'MaltModel/Proofs/FuncFSim.lean', 'MaltModel/Proofs/FuncBlockVars.lean',
                'MaltModel/Drv/C02.lean']
 FUEL = 400
@@ -277,6 +277,8 @@ def out_of_py(r):
 def out_of_lean(x):
     if isinstance(x, list) and x and x[0] == 'ret':
         return ['ret', x[1] if isinstance(x[1], str) else '?']
+    if isinstance(x, list) and x and x[0] == 'exc' and x[1] == 'user':
+        return ['exc', 'E' + x[2]]
     if isinstance(x, list) and x and x[0] == 'exc':
         return ['exc', x[1]]
     return [x if isinstance(x, str) else '?']
@@ -308,7 +310,7 @@ def run_one(mod, fn, a):
         state += [('o.' + k, mod._freeze(v)) for k, v in sorted(vars(o).items())]
         state += [('d[%r]' % (k,), mod._freeze(v)) for k, v in sorted(d.items())]
     if mod.LOG:
-        state.append(('LOG', len(mod.LOG)))
+        state.append(('LOG', tuple(tuple(e[:2]) for e in mod.LOG)))
     return out + (tuple(state),)
 
 
@@ -472,6 +474,9 @@ def check(run, only=None):
     for profile, n in (('core', n_core), ('rich', n_rich)):
         for _ in range(n):
             items.append(('gen', profile, rng.getrandbits(48), rng.randrange(6, 12 if profile == 'core' else 13)))
+    n_s1 = 70 if quick else 600
+    for _ in range(n_s1):
+        items.append(('gen', 's1', rng.getrandbits(48), rng.randrange(6, 11)))
     nproc = max(1, min(12, (os.cpu_count() or 2) - 2))
     recs = explore_all(items, nproc)
 
@@ -504,6 +509,19 @@ def check(run, only=None):
             run.case((r['key'], 'convert'), True)
             run.fail('a program of the C02 class does not convert: ' + r['conv_error'],
                      {'source': r['fsrc'], 'inputs': r['inputs'], 'stream': r['stream'], 'classes': cl}, cl[0] if cl else None)
+            continue
+        if r['stream'] == 's1':
+            # not pure (with-statements log): only the correspondence of source / native semantics below uses this stream
+            stats['s1_programs'] = stats.get('s1_programs', 0) + 1
+            stats['s1_native_differs_from_original'] = stats.get('s1_native_differs_from_original', 0) + \
+                len([1 for (a, r0, r1, r2) in r['results'] if r0 != r1])
+            for (a, r0, r1, r2) in r['results']:
+                run.case((r['key'], repr(a)), True)
+            if r['unsupported']:
+                stats['unsupported'][r['unsupported']] = stats['unsupported'].get(r['unsupported'], 0) + 1
+            if r['shape']:
+                stats['shape_mismatch'] += 1
+                shape_problems.append({'source': r['fsrc'], 'problem': r['shape']})
             continue
         for (a, r0, r1, r2) in r['results']:
             run.case((r['key'], repr(a)), ops > 0)
@@ -549,7 +567,8 @@ def check(run, only=None):
                 'finding class: ' + json.dumps(unattributed[:2])) if unattributed else '')
 
     # ---------------- correspondence on the shared fragment ----------------
-    frag = [r for r in recs if r['frag'] is not None]
+    frag = [r for r in recs if r['frag'] is not None and r['stream'] != 's1']
+    frag_s1 = [r for r in recs if r['frag'] is not None and r['stream'] == 's1']
     stats['in_fragment'] = len(frag)
     if run.driver_ok and frag:
         lines = []
@@ -625,10 +644,53 @@ def check(run, only=None):
     elif not run.driver_ok:
         run.oblige('correspondence:c02', 'correspondence', False, 'driver unavailable')
 
+    # ---------------- pass-through statements (with / try / raise): source and native semantics, funcB ----------------
+    if run.driver_ok and frag_s1:
+        lines = []
+        for r in frag_s1:
+            g = r['frag']
+            lines.append('c02.check %s %s ()' % (g['ab'], sexp(g['params'])))
+            lines.append('c02.runlog %s %s %d %s' % (g['ab'], g['tb'], FUEL, ' '.join(sexp(inp_sexp(a)) for a in r['inputs'])))
+        ans = run.drive(lines)
+        d1 = {'func': [], 'sem-source': [], 'sem-native': []}
+        hyp1 = {'live': 0, 'decl': 0, 'def': 0, 'jump': 0, 'all': 0, 'with_try_or_raise': 0}
+
+        def py_log(r):
+            st = dict(r[2])
+            return ['%s:%s' % (e[0], e[1]) for e in st.get('LOG', ())]
+        for k, r in enumerate(frag_s1):
+            g = r['frag']
+            a_chk, a_run = ans[2 * k], ans[2 * k + 1]
+            if a_chk.startswith('bad') or a_run.startswith('bad'):
+                d1['func'].append({'source': r['fsrc'], 'driver': a_chk[:80] + ' / ' + a_run[:80]})
+                continue
+            chk = dict((x[0], x[1:]) for x in parse_sexp(a_chk))
+            flags = dict((n, chk[n][0] == 'True') for n in ('live', 'decl', 'def', 'jump'))
+            for n in flags:
+                hyp1[n] += flags[n]
+            allh = all(flags.values())
+            hyp1['all'] += allh
+            hyp1['with_try_or_raise'] += any(f in r['features'] for f in ('with', 'try', 'raise'))
+            run.evaluations += 1
+            if B.canon_undefs(chk['func'][0]) != B.canon_undefs(g['tb_tree']):
+                d1['func'].append({'source': r['fsrc'], 'model': sexp(chk['func'][0])[:600], 'real': g['tb'][:600]})
+            for (a, r0, r1, r2), row in zip(r['results'], parse_sexp(a_run)):
+                run.evaluations += 1
+                (so, sl), (no, nl) = row
+                if [out_of_lean(so), sl] != [out_of_py(r0), py_log(r0)]:
+                    d1['sem-source'].append({'source': r['fsrc'], 'input': list(a), 'python': repr(r0), 'model': [so, sl]})
+                if [out_of_lean(no), nl] != [out_of_py(r1), py_log(r1)]:
+                    d1['sem-native'].append({'source': r['fsrc'], 'input': list(a), 'python': repr(r1), 'model': [no, nl]})
+                if allh and [so, sl] != [no, nl]:
+                    d1['func'].append({'source': r['fsrc'], 'input': list(a), 'theorem-instance': [so, sl, no, nl]})
+        for name in ('func', 'sem-source', 'sem-native'):
+            run.oblige('correspondence:passthrough-' + name, 'correspondence', not d1[name], json.dumps(d1[name][:2]) if d1[name] else '')
+        cov['passthrough_hypotheses_on_real_annotations'] = dict(hyp1, programs=len(frag_s1))
+
     cov['programs'] = stats
     cov['features'] = feats
     cov['failing_classes_seen'] = classes_seen
-    cov['streams'] = {'core': n_core, 'rich': n_rich, 'known_witnesses': len(CLASSES), 'workers': nproc}
+    cov['streams'] = {'core': n_core, 'rich': n_rich, 's1': n_s1, 'known_witnesses': len(CLASSES), 'workers': nproc}
     cov['search'] = ('tracing backend vs original on %d programs x 6 inputs (every branch traced, every loop body traced out of '
                      'band); Lean execF/execN/exec vs the real runs on the %d programs of the shared fragment'
                      % (stats['programs'], stats['in_fragment']))
